@@ -588,6 +588,96 @@ theorem C17_nlpadmm_est (cJx cJz fac : ℝ) (hx : 0 < cJx) (hz : 0 < cJz) (hf : 
     cJx ^ 2 < (padmmEst cJx cJz (some fac)).1 ∧ cJz ^ 2 < (padmmEst cJx cJz (some fac)).2 :=
   ⟨(C17_padmm_est cJx cJz fac hx hz hf).1, (C17_padmm_est cJx cJz fac hx hz hf).2.1⟩
 
+/-! ### the estimators and the *true* norm -/
+
+/-- `PDHG.estimate_parameters` and the constraint the solver needs, `τσ‖C‖₂² < 1` for the **true** norm `nC`: it holds as soon
+    as the estimate `c ≤ nC` used is within the safety factor, `nC² < factor·c²` (power iteration only under-estimates). -/
+theorem C17_pdhg_true_constraint (nC c ratio fac : ℝ) (hc : 0 < c) (hr : 0 < ratio) (hf : 0 < fac)
+    (h : nC ^ 2 < fac * c ^ 2) :
+    let p := pdhgEst c ratio (some fac)
+    p.1 * p.2 * nC ^ 2 < 1 := by
+  intro p
+  have hprod : p.1 * p.2 * c ^ 2 = 1 / fac := pdhgEst_prod c ratio fac hc hr hf
+  have hc2 : 0 < c ^ 2 := by positivity
+  have hpp : p.1 * p.2 = 1 / (fac * c ^ 2) := by
+    have : p.1 * p.2 = (1 / fac) / c ^ 2 := by rw [← hprod]; field_simp
+    rw [this]; field_simp
+  rw [hpp, div_mul_eq_mul_div, one_mul, div_lt_one (by positivity)]
+  exact h
+
+/-- the same for `ProximalADMM` / `NonLinearPADMM`: `μ = factor·c² > ‖A‖²` for the true norm under the same condition -/
+theorem C17_padmm_true_constraint (nA nB cA cB fac : ℝ) (hA : nA ^ 2 < fac * cA ^ 2) (hB : nB ^ 2 < fac * cB ^ 2) :
+    nA ^ 2 < (padmmEst cA cB (some fac)).1 ∧ nB ^ 2 < (padmmEst cA cB (some fac)).2 := by
+  simp only [padmmEst]
+  constructor
+  · calc nA ^ 2 < fac * cA ^ 2 := hA
+      _ = fac * (cA * cA) := by ring
+  · calc nB ^ 2 < fac * cB ^ 2 := hB
+      _ = fac * (cB * cB) := by ring
+
+section eventually
+variable {E F : Type} [NormedAddCommGroup E] [InnerProductSpace ℝ E] [NormedAddCommGroup F] [InnerProductSpace ℝ F]
+variable {ι : Type} [Fintype ι] [DecidableEq ι]
+
+/-- **When is the budget large enough?**  Under the spectral-gap hypotheses of `C17_opnorm_converges`, with
+    `C₀ = ‖v0 − P v0‖²/‖P v0‖²`: as soon as `r^(2k)·C₀ < 1 − 1/factor` the norm estimate `c` obtained with budget `k+1`
+    satisfies `‖A‖² < factor·c²`, so the parameters derived from it respect the constraints for the **true** norm:
+    `τσ‖A‖² < 1` (PDHG) and `μ > ‖A‖²` (proximal ADMM). -/
+theorem C17_estimators_true_norm (B : E →L[ℝ] E) (A : E →L[ℝ] F) (hG : IsGram B A) (b : OrthonormalBasis ι ℝ E)
+    (lam : ι → ℝ) (hB : IsDiagIn B b lam) (D : Finset ι) (lam1 : ℝ) (hpos : 0 < lam1) (htop : ∀ i, i ∈ D → lam i = lam1)
+    (r : ℝ) (hr0 : 0 ≤ r) (hr : r < 1) (hgap : ∀ i, i ∉ D → lam i ≤ r * lam1) (v0 : E)
+    (hc0 : 0 < ∑ i ∈ D, inner ℝ (b i) v0 ^ 2) (k : Nat) (c : ℝ)
+    (h : operatorNorm (opsOf B) (k + 1) v0 = .ok c) (ratio fac : ℝ) (hratio : 0 < ratio) (hf : 1 < fac)
+    (hk : r ^ (2 * k) * ((‖v0‖ ^ 2 - ∑ i ∈ D, inner ℝ (b i) v0 ^ 2) / ∑ i ∈ D, inner ℝ (b i) v0 ^ 2) < 1 - 1 / fac) :
+    0 < c ∧ ‖A‖ ^ 2 < fac * c ^ 2 ∧
+    (pdhgEst c ratio (some fac)).1 * (pdhgEst c ratio (some fac)).2 * ‖A‖ ^ 2 < 1 ∧
+    ‖A‖ ^ 2 < (padmmEst c c (some fac)).1 := by
+  -- one estimate suffices: use the constant sequence trick through the rate statement for this `k`
+  obtain ⟨mu, vv, hmu, hcs⟩ := operatorNorm_ok _ _ _ _ h
+  have hd : Dominant lam D lam1 r := hG.dominant hB hpos hr0 (le_of_lt hr) htop hgap
+  have hv0 : v0 ≠ 0 := by
+    rintro rfl
+    simp at hc0
+  have hmu0 : 0 ≤ mu := (C17_rayleigh_le B A hG (k + 1) v0 hv0 mu vv hmu).1
+  have hrate := C17_power_converges_rate B b lam hB D lam1 r hd v0 hc0 k mu vv hmu
+  -- lam1 = ‖A‖²
+  obtain ⟨i0, hi0⟩ : ∃ i0, i0 ∈ D := by
+    by_contra hne
+    push Not at hne
+    have : ∑ i ∈ D, inner ℝ (b i) v0 ^ 2 = 0 := Finset.sum_eq_zero (fun i hi => absurd hi (hne i))
+    rw [this] at hc0
+    exact lt_irrefl _ hc0
+  have hl0 : lam i0 = lam1 := htop i0 hi0
+  have hmax : ∀ i, lam i ≤ lam i0 := by
+    intro i
+    rw [hl0]
+    by_cases hi : i ∈ D
+    · rw [htop i hi]
+    · exact le_trans (hgap i hi) (by nlinarith)
+  have hnorm : ‖A‖ = Real.sqrt lam1 := by rw [← hl0]; exact hG.opNorm_eq_sqrt hB i0 hmax
+  have hlam : lam1 = ‖A‖ ^ 2 := by rw [hnorm, Real.sq_sqrt (le_of_lt hpos)]
+  have hc2 : c ^ 2 = mu := by rw [hcs, Real.sq_sqrt hmu0]
+  set C0 := (‖v0‖ ^ 2 - ∑ i ∈ D, inner ℝ (b i) v0 ^ 2) / ∑ i ∈ D, inner ℝ (b i) v0 ^ 2 with hC0
+  have hf0 : 0 < fac := by linarith
+  -- mu ≥ lam1 (1 − r^{2k} C0) > lam1 / fac
+  have hlow : lam1 / fac < mu := by
+    have h1 : lam1 - lam1 * (r ^ (2 * k) * C0) ≤ mu := hrate.2
+    have h2 : lam1 * (r ^ (2 * k) * C0) < lam1 * (1 - 1 / fac) := mul_lt_mul_of_pos_left hk hpos
+    have h3 : lam1 / fac = lam1 - lam1 * (1 - 1 / fac) := by field_simp; ring
+    rw [h3]; linarith
+  have hmupos : 0 < mu := lt_trans (div_pos hpos hf0) hlow
+  have hcpos : 0 < c := by rw [hcs]; exact Real.sqrt_pos.2 hmupos
+  have hmain : ‖A‖ ^ 2 < fac * c ^ 2 := by
+    rw [hc2, ← hlam]
+    have := (div_lt_iff₀ hf0).1 hlow
+    linarith
+  exact ⟨hcpos, hmain, C17_pdhg_true_constraint ‖A‖ c ratio fac hcpos hratio hf0 hmain,
+    (C17_padmm_true_constraint ‖A‖ ‖A‖ c c fac hmain hmain).1⟩
+
+end eventually
+-- non-vacuity of the budget condition: gap ratio r = 1/4, C₀ = 1, default factor 1.01: budget k+1 = 3 suffices
+example : ((1 : ℝ) / 4) ^ (2 * 2) * 1 < 1 - 1 / 1.01 := by norm_num
+
 /-! ### the estimators at a zero norm estimate (zero operator, `C17_zero_exact`) — what the code does there
 
 Over the IEEE-extended reals (`XR ℝ`: `1/0 = +inf`, `inf·0 = NaN`, NaN-false comparisons).  These are *negation
